@@ -1,27 +1,30 @@
 (* C07  Share placement is complete, respects read-only servers, maximizes spread.
    Statements only; proofs in Proofs/Placement*.v (and Proofs/Matching*.v for the flow
-   algorithm).  Model: Model/Placement.v = happiness_upload.share_placement and helpers,
-   after the two fixes recorded for C07 in known_findings.jsonl.
+   algorithm shared with C08).  Model: Model/Placement.v = happiness_upload.share_placement
+   and helpers, after the two fixes recorded for C07 in known_findings.jsonl.
 
    Quantification: every theorem holds for ALL iteration orders `os` (the order in
    which CPython would iterate each set the code loops over) and all inputs; `res` is
    any result the model returns (None = Python would raise / fuel exhausted / `os` is
-   not a permutation).
-     placement_total          FULL     every share number is assigned
-     readonly_only_existing   FULL     a read-only server gets only shares it holds;
-                                       every share goes to a listed server
-     placement_maximal        PARTIAL  proved with the extra hypothesis
-        `placement_certified os peers readonly shares p2s = true`: the boolean validator
-        accepts the placement together with the vertex cover computed from the read-only
-        phase's last BFS.  placement_validator_sound (any inputs, any claimed placement,
-        any claimed cover) is unconditional.  Missing for the full statement: optimality
-        of the composition of the three matching phases.  Coq evaluates
-        placement_certified on every model-vs-implementation case of the harness, and
-        the clause is checked on the implementation itself for every layout with
-        <= 4 servers and <= 5 shares. *)
+   not a permutation of the set it orders).  All three clauses are proved at full
+   strength for the model:
+     placement_total          every share number is assigned
+     readonly_only_existing   a read-only server gets only shares it holds; every
+                              share goes to a listed server
+     placement_maximal        the number of distinct servers used is the size of a
+                              maximum matching of the graph (writable server -- every
+                              share, read-only server -- shares it holds)
+   wf_full states the precondition of the property: writable and read-only servers
+   disjoint, at least one writable server, existing shares reported only for listed
+   servers and only among the share numbers being placed, no repeated dict key / set
+   element.  Not proved: that the model returns a result for every wf input and every
+   admissible `os` (no KeyError/IndexError path, fuel suffices inside share_placement);
+   the correspondence run finds model = implementation, hence a result, on every case.
+   The boolean validator of placements (placement_validator_sound) is kept as an
+   independent cross-check evaluated by Coq on every correspondence case. *)
 From Coq Require Import List NArith ZArith Bool.
 From Verif Require Import Model.Matching Model.Placement Proofs.Matching Proofs.Placement
-     Proofs.PlacementStruct Proofs.PlacementReadonly.
+     Proofs.PlacementStruct Proofs.PlacementReadonly Proofs.PlacementMax.
 Import ListNotations.
 Local Open Scope N_scope.
 
@@ -61,13 +64,24 @@ Theorem readonly_only_existing :
 Proof. exact readonly_only_existing_full. Qed.
 Print Assumptions readonly_only_existing.
 
-Theorem placement_maximal_partial :
+(* clause 3 *)
+Theorem placement_maximal :
+  forall os peers readonly shares p2s res,
+    wf_full peers readonly shares p2s ->
+    share_placement os peers readonly shares p2s = Some res ->
+    maximal_spec peers readonly shares p2s res.
+Proof. exact placement_maximal_full. Qed.
+Print Assumptions placement_maximal.
+
+(* the validator route (kept as a cross-check): accepted certificate => the three clauses *)
+Theorem placement_certified_sound :
   forall os peers readonly shares p2s res,
     placement_certified os peers readonly shares p2s = true ->
     share_placement os peers readonly shares p2s = Some res ->
+    total_spec shares res /\ readonly_spec readonly p2s res /\ known_spec peers readonly res /\
     maximal_spec peers readonly shares p2s res.
-Proof. exact maximal_of_certified. Qed.
-Print Assumptions placement_maximal_partial.
+Proof. exact placement_of_certified. Qed.
+Print Assumptions placement_certified_sound.
 
 (* the number of distinct servers of a placement is well defined *)
 Theorem distinct_servers_functional :
@@ -76,6 +90,15 @@ Proof. exact distinct_servers_unique. Qed.
 Print Assumptions distinct_servers_functional.
 
 (* ---- non-vacuity (iteration orders: everything sorted) ------------------------ *)
+(* the precondition is decidable; wf_full_b is also what the harness evaluates per case *)
+Theorem wf_full_decidable :
+  forall peers readonly shares p2s, wf_full_b peers readonly shares p2s = true -> wf_full peers readonly shares p2s.
+Proof. exact wf_full_b_sound. Qed.
+Print Assumptions wf_full_decidable.
+
+Example ex_wf_full_nonvacuous : wf_full_b [1; 2] [0] [0; 1; 2] [(0, [0]); (1, [1; 2]); (2, [0])] = true.
+Proof. vm_compute. reflexivity. Qed.
+
 (* DESIGN section 9 (b): read-only s0 {0}, writable s1 {1,2}, s2 {0}: three servers. *)
 Example ex_three_servers_nonvacuous :
   share_placement sorted_orders [1; 2] [0] [0; 1; 2] [(0, [0]); (1, [1; 2]); (2, [0])]
